@@ -174,7 +174,7 @@ func (s *Sim) startGateway() {
 		RetryCount:        cfg.RetryCount,
 	}
 	if cfg.GwHasPass {
-		gc.MqttPassword = cfg.GwPass
+		gc.MqttPassword = append([]byte(nil), cfg.GwPass...) // a copy: the plan is the oracle's reference
 		if gc.MqttPassword == nil {
 			gc.MqttPassword = []byte{}
 		}
